@@ -633,6 +633,8 @@ SST_TABLES = [
     ("xls::Xls::parse_workbook", ("local", "xfs", "alloc::vec::Vec<u16>"), "xls XF table"),
     ("xls::Xls::parse_workbook", ("local", "defined_names", "alloc::vec::Vec<(alloc::string::String, (core::option::Option<usize>, alloc::string::String))>"), "xls Lbl (defined name) table"),
     ("xlsb::Xlsb::read_workbook", ("local", "defined_names", "alloc::vec::Vec<(alloc::string::String, alloc::string::String)>"), "xlsb BrtName table"),
+    # the table XTI.itabFirst indexes: one entry per BoundSheet8 record, whatever kind of sheet
+    ("xls::Xls::parse_workbook", ("local", "sheet_names", "alloc::vec::Vec<(usize, alloc::string::String)>"), "xls BoundSheet8 table"),
     # the table the XTI entries of BrtExternSheet index: one entry per BrtBundleSh record, whatever kind of sheet
     ("xlsb::Xlsb::read_workbook", ("self", "sheets", "alloc::vec::Vec<(alloc::string::String, alloc::string::String)>"), "xlsb sheets (BrtBundleSh) table; nullskip"),
 ]
@@ -718,6 +720,20 @@ def _count_paths(e, tab, targets):
     if k in ("Loop", "Closure"):
         inner = any(m.get("k") == "MethodCall" and m["name"] in ("push", "insert") and _is_table(m["recv"], tab) for m in walk(e))
         return {(MANY, False)} if inner else {(0, False)}
+    if k == "MethodCall" and e["name"] in ("map", "and_then", "inspect") and any(isinstance(unwrap(a), dict) and unwrap(a).get("k") == "Closure" for a in e["args"]):
+        rty = (peel(e["recv"]) or {}).get("ty") or ""
+        if rty.startswith("core::result::Result<") or rty.startswith("core::option::Option<"):
+            # `read(..).map(|s| sst.push(s))`: the closure runs once when the value is there; an Err is the failed item (it is
+            # what the enclosing `?` / try_for_each propagates), a None simply runs nothing
+            acc = _count_paths(e["recv"], tab, targets)
+            inner = set()
+            for a in e["args"]:
+                ua = unwrap(a)
+                if isinstance(ua, dict) and ua.get("k") == "Closure":
+                    inner |= _count_paths(ua.get("body"), tab, targets)
+            if rty.startswith("core::option::Option<"):
+                inner |= {(0, False)}
+            return _seq(acc, inner or {(0, False)})
     if k == "MethodCall":
         acc = _count_paths(e["recv"], tab, targets)
         for a in e["args"]:
